@@ -1,7 +1,8 @@
 """C15 -- extraction from a SPARQL endpoint equals extraction from the same graph locally.
 
-Theorems: Props/C15.v (C15_triples, C15_cache_same_result, C15_cache_log_partial,
-C15_equals_local_partial; *_refuted witnesses for the known findings).
+Theorems: Props/C15.v (C15_triples, C15_delivered_once, C15_cache_same_result,
+C15_cache_log_partial, C15_equals_local_partial; regression examples of the repaired
+findings F1, F2, F4, F5; *_refuted witnesses for the known findings F3, F6).
 
 The endpoint is an in-process fake: ``shexer.io.sparql.query._query_endpoint_json_result``
 is replaced by a function that lets rdflib evaluate the query text on the served
@@ -377,25 +378,16 @@ def mb():
 # --------------------------------------------------------------------------
 
 def in_domain_literal(o):
-    """the property's literal domain: plain strings (that no reader could take for anything else) and integers"""
+    """literals both paths read alike since the repair of C15-F1: any datatype or language tag; the lexical form has no
+    double quote, and that of a typed literal none of the prefixes decide_literal_type searches for"""
     if o[0] != "L":
         return True
-    if len(o) > 3 and o[3]:
+    if '"' in o[1] or "\\" in o[1] or "^^" in o[1]:
         return False
-    if o[2] == STRING:
-        return re.match(r"^[A-Za-z][A-Za-z ]*$", o[1]) is not None and not o[1].startswith("http") \
-            and _not_float(o[1])
-    if o[2] == INTEGER:
-        return re.match(r"^-?[0-9]{1,15}$", o[1]) is not None
-    return False
-
-
-def _not_float(s):
-    try:
-        float(s)
+    lang = len(o) > 3 and o[3]
+    if not lang and o[2] != STRING and any(k in o[1] for k in ("xsd:", "rdf:", "dt:", "geo:")):
         return False
-    except ValueError:
-        return True
+    return True
 
 
 def syntactic_domain(ts, tau):
@@ -408,7 +400,7 @@ def syntactic_domain(ts, tau):
 
 
 WEIRD_STRINGS = ["42", "1.5", "-7", "inf", "nan", "3.0", " 5", "http://ex.org/n0", "https://x.org/a", "x y", "_:b",
-                 "[]", "<a>", "a@b", "1e3", "1_0", "é", "٣", "0x10", ".5", "5.", "+"]
+                 "[]", "<a>", "a@b", "1e3", "1_0", "é", "٣", "0x10", ".5", "5.", "+", "007", "@en"]
 
 
 def _other_schemes(ts, r):
@@ -432,21 +424,19 @@ def gen_case_graph(r, in_domain):
     out = []
     seen = set()
     for s, p, o in ts:
-        if in_domain:
-            if s[0] == "B" or o[0] == "B":
-                continue
-            if o[0] == "L":
-                if o[2] == INTEGER or (o[2] not in (STRING,) and r.random() < 0.5):
-                    o = ("L", str(r.randint(0, 99)) if r.random() < 0.8 else "-%d" % r.randint(1, 9), INTEGER)
-                else:
-                    o = ("L", r.choice(["v", "w", "abc", "x y", "Zed"]) + r.choice(["", "a", "b", " c"]), STRING)
-            if p == RDF_TYPE and o[0] != "I":
-                continue
-        else:
-            if o[0] == "L" and r.random() < 0.3:
-                o = ("L", r.choice(WEIRD_STRINGS), r.choice([STRING, STRING, INTEGER, XSD + "float", XSD + "date"]))
-            elif o[0] == "L" and o[2] == INTEGER and r.random() < 0.6:
+        if in_domain and (s[0] == "B" or o[0] == "B"):
+            continue
+        if o[0] == "L":
+            k = r.random()
+            if k < 0.3:
+                dt = r.choice([STRING, STRING, INTEGER, XSD + "float", XSD + "date", "http://ex.org/dt"])
+                o = ("L", r.choice(WEIRD_STRINGS), dt)
+            elif k < 0.5 and o[2] == INTEGER:
                 o = ("L", str(r.randint(0, 99)), INTEGER)
+            elif k < 0.6 and o[2] == STRING:
+                o = ("L", r.choice(["v", "w", "abc", "x y", "Zed"]) + r.choice(["", "a", "b", " c"]), STRING)
+        if in_domain and p == RDF_TYPE and o[0] != "I":
+            continue
         t = (s, p, o)
         if t not in seen:
             seen.add(t)
@@ -499,7 +489,7 @@ def oracle_targets(ts, mode, cfg, real, limit=-1):
             else:
                 T += [o[1] for s, p, o in ts if p == it[2] and (it[1] is None or s == ("I", it[1])) and o[0] == "I"]
         return set(T)
-    if limit < 0 and cfg["cap"] == -1:
+    if limit < 0 and cfg["cap"] <= 0:
         # no LIMIT: the instances of the target classes (of every class, in all_classes_mode); blank subjects are not asked for
         return {s[1] for s, p, o in ts if p == tau and s[0] == "I" and o[0] == "I" and (mode[0] == "all" or o[1] in mode[1])}
     first = {}
@@ -681,13 +671,11 @@ def _run_case(case):
     for cache in (True, False):
         runs[cache] = run_endpoint(ts, order, mode, cfg, cache, limit, flip_repeats=case.get("flip", False))
     T = oracle_targets(ts, mode, cfg, runs[True], limit)
-    limited = mode[0] != "map" and (limit >= 0 or cfg["cap"] != -1)
+    limited = mode[0] != "map" and (limit >= 0 or cfg["cap"] > 0)
     local = local_T = gT = None
     note = None
     if not limited:
-        local = run_local(ts, mode, cfg)
-    elif cfg["cap"] == 0:
-        local = run_local(ts, mode, cfg)           # "a positive value" caps; 0 does not (README)
+        local = run_local(ts, mode, cfg)           # instances_cap: "a positive value" caps; 0 does not (README)
     elif any(q[0] == "other" for q in runs[True]["log"] + runs[False]["log"]):
         note = "unrecognised_query"                # the instances the endpoint returned are not known to the oracle
     else:
@@ -755,7 +743,7 @@ def gen_cases(tier, rnd, n):
                 limit = r.randint(1, 3)
             elif k < 0.36:
                 cfg["cap"] = r.randint(1, 3)
-            elif k < 0.39 and not in_dom:
+            elif k < 0.41:
                 cfg["cap"] = 0
         order = list(range(len(ts)))
         if i % 2:
@@ -785,6 +773,21 @@ def case_from_json(d):
             "limit": d["limit"], "flip": d.get("flip", False), "keep_vm": False}
 
 
+def load_corpus():
+    """regression cases of repaired defects (corpus/C15/*.json): replayed first, must pass"""
+    d = os.path.join(core.VERIF, "corpus", "C15")
+    out = []
+    if os.path.isdir(d):
+        for fn in sorted(os.listdir(d)):
+            if fn.endswith(".json"):
+                with open(os.path.join(d, fn)) as f:
+                    c = case_from_json(json.load(f)["case"])
+                c["corpus"] = fn
+                c["stream"] = "corpus"
+                out.append(c)
+    return out
+
+
 FINDING_OF = {"rc_literal_reader": "C15-F1", "rc_inverse_double": "C15-F2", "rc_bnode": "C15-F3",
               "rc_cap_zero": "C15-F4", "rc_no_class": "C15-F5", "rc_limit_two_selects": "C15-F6"}
 
@@ -811,7 +814,7 @@ def run(tier, seed, replay=None):
             rp = json.load(f)
         cases = [case_from_json(rp["case"])] if "case" in rp else []
     else:
-        cases = gen_cases(tier, rnd, 8000 if tier == "thorough" else 300)
+        cases = load_corpus() + gen_cases(tier, rnd, 8000 if tier == "thorough" else 300)
         nvm = 60 if tier == "thorough" else 16
         for i in rnd.sample(range(len(cases)), min(nvm, len(cases))):
             cases[i]["keep_vm"] = True
@@ -894,7 +897,7 @@ def run(tier, seed, replay=None):
                           failing_input=False)
         elif not proofs_ok:
             run.violation("proof obligations of C15 no longer check",
-                          {"broken": "theorems of Props/C15.v (C15_triples, C15_cache_same_result, C15_cache_log_partial, "
+                          {"broken": "theorems of Props/C15.v (C15_triples, C15_delivered_once, C15_cache_same_result, C15_cache_log_partial, "
                                      "C15_equals_local_partial, refuted witnesses)",
                            "log": run.notes[-1] if run.notes else ""}, failing_input=False)
 
@@ -904,18 +907,21 @@ def run(tier, seed, replay=None):
         "cases": len(cases),
         "real_runs_per_case": "endpoint with cache, endpoint without cache, local (G, or the statements of the returned instances)",
         "distinct_nontrivial": len(distinct),
-        "rule": "graphs from pipe.gen_graph (1-4 classes, 2-6 nodes, multi-typed nodes, links between instances) with IRI "
-                "nodes, plain non-numeric strings and integers (4 of 5 cases) or with language tags, other datatypes, "
-                "numeric-looking / IRI-looking strings and blank nodes (1 of 5) x {target_classes, all_classes_mode, shape "
-                "map of node / FOCUS selectors} round-robin x inverse_paths x 2^6 inference switches x "
-                "limit_remote_instances / instances_cap in 1..3 (36 %) x answers in document order or shuffled (every other "
-                "case) x cache on and off (both, every case); distinct = distinct (graph, order, mode, configuration); "
-                "non-trivial = at least 4 triples delivered and the cache saves at least one query",
+        "rule": "regression cases of corpus/C15 first; then graphs from pipe.gen_graph (1-4 classes, 2-6 nodes, multi-typed "
+                "nodes, links between instances; some nodes renamed to urn: / mailto: IRIs) with IRI nodes and plain, typed "
+                "(integer, float, date, custom datatype; well- and ill-formed lexical forms, numeric- and IRI-looking "
+                "strings) and language-tagged literals (4 of 5 cases) or also with blank nodes (1 of 5) x {target_classes, "
+                "all_classes_mode, shape map of node / FOCUS selectors} round-robin x inverse_paths x 2^6 inference switches "
+                "x limit_remote_instances / instances_cap in 1..3 (36 %) and instances_cap = 0 (5 %) x answers in document "
+                "order or shuffled (every other case) x cache on and off (both, every case); distinct = distinct (graph, "
+                "order, mode, configuration); non-trivial = at least 4 triples delivered and the cache saves at least one query",
         "checked_items": nitems,
         "distribution": dict(stats),
         "outcome_distribution": dict(outcomes),
         "queries_cache_vs_nocache_total": [sum(a for a, _ in qsaved), sum(b for _, b in qsaved)],
         "known_finding_hits": dict(known_hits),
+        "corpus_cases_replayed_first": len([c for c in cases if c.get("corpus")]),
+        "corpus_cases_failing": sorted({cases[k]["corpus"] for k in spec_fail if cases[k].get("corpus")}),
         "disagreements_model_vs_impl": len(corr_fail),
         "vm_compute_crosschecked": vm_n,
         "correspondence_projection": "per endpoint run (2 per case): the sequence of (kind, node) queries parsed from the "
